@@ -12,10 +12,18 @@ def one(b):
     name, edits, replace_all = b
     if not edits:
         return name, "SKIP", ""
+    patchfile = None
+    if isinstance(edits, str) and edits.startswith("PATCH:"):
+        patchfile = os.path.join(HERE, edits[6:])
+        edits = []
     d = tempfile.mkdtemp(prefix="benign_", dir="/tmp")
     try:
         scratch = os.path.join(d, "repo")
         subprocess.run(["rsync", "-a", "--exclude", ".git", "--exclude", "target", REPO + "/", scratch + "/"], check=True)
+        if patchfile:
+            r = subprocess.run(["patch", "-p1", "-s", "--no-backup-if-mismatch", "-i", patchfile], cwd=scratch, capture_output=True, text=True)
+            if r.returncode != 0:
+                return name, "STALE", r.stdout[-100:]
         for f, old, new in edits:
             p = os.path.join(scratch, f); s = open(p).read()
             if old not in s:
